@@ -197,6 +197,18 @@ pub fn run_point(tape: &mut Tape, pt: &Point, detail: bool) -> MatReport {
             fs.plant_file(&format!("{}/sibling", phys), &make_value("sibling", 9, 3), 0o444, mtime - 120_000_000_000, mtime - 5_000_000_000);
             phys_of[i] = Some(phys);
         }
+        // an empty read-only level may hold a dead name for the key: a link
+        // whose target is gone.  It is absent for every lookup, and it is as
+        // untouchable as anything else in a read-only directory.
+        if c == 0 && is_reader && !pt.missing_dirs && tape.draw(4) == 3 {
+            let phys = match k {
+                LKind::Plain => path.clone(),
+                LKind::Sharded => format!("{}/{}", path, shard_dir_name(if tape.draw(2) == 0 { a } else { b })),
+            };
+            fs.mkdir_all(&phys);
+            let m = fs.now - 9_000_000_000_000;
+            fs.plant_symlink(&format!("{}/{}", phys, cname), "gone/away", m);
+        }
         dirs.push(DirSpec { path, kind, capacity: 1_000_000 });
     }
     let reader_idx: Vec<usize> = (0..nl).filter(|i| !(has_writer && *i == 0)).collect();
